@@ -44,7 +44,13 @@ RULE = ("Hypothesis draws small TT-tensors (d 2..4, mode sizes 1..4(5), ranks up
         "carry the un-normalised product.  UNIQUE ARGUMENTS (`unique_args`): unique=True (explicit / default / positional) with m_fact in "
         "{default, 1, 2, 5, 50}, max_rep in {default, 100, 10, 0, 1, 2, 3}, m as int / float / np.int64 / np.float64, int seeds and Generator "
         "objects reused by 1..3 consecutive calls, on tensors peaked by damping slice i of core k with 2**(-a_k i); with max_rep <= 3 "
-        "m is free (1..size+2, also more than the tensor has entries), otherwise m <= n_eff/2; non-trivial = m >= 2 rows were returned.")
+        "m is free (1..size+2, also more than the tensor has entries), otherwise m <= n_eff/2; non-trivial = m >= 2 rows were returned.  "
+        "STORAGE TYPES (`core_dtypes`): tensors (d 2..4) whose cores are kept in int64 / int32 / bool / float32 / float64 arrays - one typed "
+        "core in any position among arbitrary float64 cores, a typed first core, typed prefixes / suffixes, every other core, all cores "
+        "alike, an independent draw per core; typed cores hold exactly representable values.  `sample` and `sample_square` are audited by "
+        "the full forced enumeration against the dense reference of the float64 copy and must return, for the same int seed / Generator "
+        "kind and m in 1..40, the very rows the float64 copy gives; non-trivial = d >= 3, a typed core before the last one, rank >= 2.  "
+        "`grid` / `sample_tt` also get the shape as int32 / int16 / uint8 arrays.")
 TOLERANCES = ("sample: |prod p - T[i]/S| <= 4 d K eps rho T[i]/S (+ n_0 unsert/S for unsert > 0), K = 32(d+sum r+sum n), rho = max "
               "abs-majorant/value ratio over all prefix marginals (1 for non-negative cores, so zero entries are exact); "
               "sample_square: eta = K eps prod||G_k||_F/||T||_F, |prod p - P| <= 4 eta (sqrt(P)+P) + 4 eta^2; every recorded p: finite, "
@@ -65,6 +71,12 @@ ASSUMPTIONS = ["d >= 2 (library-wide precondition)",
                "neighbouring cores stay far inside the double range - the stabilised sweep never sees more than that",
                "m_fact is an int (documented type); float m_fact is not exercised",
                "float_cf (documented as 'TODO: check') is not exercised",
+               "core_dtypes: typed cores hold values their type represents exactly (small integers, 0/1, multiples of 1/4 for float32 so that "
+               "single-precision products / sums of them are exact); int64 / int32 / bool / float32 / float64 in any position were verified "
+               "on the unmodified library to give the rows of the float64 copy, with two exceptions that are labelled and excluded: "
+               "(a) `sample` with d >= 3 and BOTH cores 0 and 1 stored as bool (the prefix product is a bool einsum = logical or-of-ands, "
+               "not a count: reported as a finding), (b) `sample_square` with a float32 or bool core: scipy.linalg.rq factorises those in "
+               "single precision, so the chain is audited with the float32 unit roundoff and the rows are not compared with the float64 copy",
                "history: the caller's updates keep the tensor inside the domain by construction for `sample` (the positive path of the "
                "cores is never zeroed; signed-core tensors only get whole-slice updates); for `sample_square` a history ends (labelled) "
                "when an update makes the tensor exactly zero or ill-conditioned (eta > 1e-7)"]
@@ -521,10 +533,10 @@ def sq_prepare(ctx, spec, scale=None):
     return apply_scale(ctx, Y, scale, spec.get("layout", "C")), ref
 
 
-def forced_square_run(ctx, Y, n, ref, kw):
+def forced_square_run(ctx, Y, n, ref, kw, K=None):
     """Force every multi-index through teneva.sample_square with m = 1 (keywords `kw` select the spelling)."""
     d = len(n)
-    K = Kc(Y)
+    K = Kc(Y) if K is None else K
     run = _guard(teneva.sample_square)
     done = 0
     for idx in np.ndindex(*n):
@@ -1009,7 +1021,7 @@ def grid_cases(draw, tier):
     else:
         q = draw(st.integers(1, 6 if tier == "quick" else 25))
         m = max(1, q * n[draw(st.integers(0, d - 1))] + {"multiple": 0, "multiple+1": 1, "multiple-1": -1}[m_kind])
-    return {"n": n, "n_kind": draw(st.sampled_from(["list", "int_array", "float_array", "float_list"])),
+    return {"n": n, "n_kind": draw(st.sampled_from(["list", "int_array", "float_array", "float_list", "int32_array", "uint8_array", "int16_array"])),
             "m": m, "m_kind": m_kind, "m_float": draw(st.booleans()),
             "kind": draw(st.sampled_from(SEED_KINDS)), "seed": draw(gen.seeds)}
 
@@ -1021,6 +1033,8 @@ def shape_arg(n, kind):
         return np.array(n, dtype=int)
     if kind == "float_array":
         return np.array(n, dtype=float)
+    if kind in ("int32_array", "uint8_array", "int16_array"):
+        return np.array(n, dtype=kind[:-6])              # mode sizes are <= 200 in every sub-check that uses these spellings
     return [float(k) for k in n]
 
 
@@ -1094,7 +1108,7 @@ def prop_lhs_all_n(case, ctx):
 def tt_cases(draw, tier):
     d = draw(st.integers(2, 4 if tier == "quick" else 5))
     n = [draw(st.integers(1, 4 if tier == "quick" else 6)) for _ in range(d)]
-    return {"n": n, "n_kind": draw(st.sampled_from(["list", "int_array"])), "r": draw(st.integers(1, 5 if tier == "quick" else 7)),
+    return {"n": n, "n_kind": draw(st.sampled_from(["list", "int_array", "int_array", "int32_array", "uint8_array", "int16_array"])), "r": draw(st.integers(1, 5 if tier == "quick" else 7)),
             "r_default": draw(st.integers(0, 5)) == 0, "kind": draw(st.sampled_from(SEED_KINDS)), "seed": draw(gen.seeds)}
 
 
@@ -1135,7 +1149,7 @@ def prop_sample_tt(case, ctx):
     else:
         r = case["r"]
         out = ctx.lib(teneva.sample_tt, shape_arg(n, case["n_kind"]), r, seed)
-    ctx.label("seed:" + case["kind"], f"d=={d}", "r_default" if case["r_default"] else "r_given")
+    ctx.label("seed:" + case["kind"], f"d=={d}", "r_default" if case["r_default"] else "r_given", "n:" + case["n_kind"])
     check_tt_layout(ctx, out, n, r)
     ctx.nontrivial(r >= 2 and d >= 3)
 
@@ -1214,6 +1228,147 @@ def prop_gof(case, ctx):
     ctx.nontrivial(nontrivial_tt(spec) and float(np.abs(P - 1.0 / N).max()) > 2 * t)
 
 
+# =========================================================================================== storage types of the cores
+#
+# The distribution is a function of the VALUES of the cores.  A core kept in another numeric array type (a table of counts in an
+# integer array, a 0/1 selector in a bool array, single-precision weights) denotes the same tensor as its float64 copy, so the
+# samplers must use the same conditionals - whatever position the core has and whatever the types of its neighbours are.
+
+CORE_DTYPES = ("float64", "int64", "int32", "bool", "float32")
+DT_PATTERNS = ("one", "one", "first", "first", "prefix", "suffix", "random", "random", "all_same", "alternate")
+F32_EPS = float(np.finfo(np.float32).eps)
+
+
+@st.composite
+def dtype_plans(draw, d):
+    """The storage type of every core: one typed core in any position among float64 cores, a typed first core, typed prefixes /
+    suffixes, every other core, all cores alike, or an independent draw per core."""
+    typed = st.sampled_from(CORE_DTYPES[1:])
+    pat = draw(st.sampled_from(DT_PATTERNS))
+    plan = ["float64"] * d
+    if pat == "one":
+        plan[draw(st.integers(0, d - 1))] = draw(typed)
+    elif pat == "first":
+        plan[0] = draw(typed)
+    elif pat == "prefix":
+        for k in range(draw(st.integers(1, d - 1))):
+            plan[k] = draw(typed)
+    elif pat == "suffix":
+        for k in range(draw(st.integers(1, d - 1)), d):
+            plan[k] = draw(typed)
+    elif pat == "alternate":
+        t, off = draw(typed), draw(st.integers(0, 1))
+        for k in range(off, d, 2):
+            plan[k] = t
+    elif pat == "all_same":
+        plan = [draw(typed)] * d
+    else:
+        plan = [draw(st.sampled_from(CORE_DTYPES)) for _ in range(d)]
+    return pat, plan
+
+
+@st.composite
+def dtype_cases(draw, tier):
+    kw = sizes(tier)
+    which = draw(st.sampled_from(["sample", "sample", "square"]))
+    d = draw(st.sampled_from([2, 3, 3, 3, 4, 4]))
+    n = gen._cap_shape([draw(st.sampled_from([1, 2, 2, 3, 3, 4])) for _ in range(d)], 48 if tier == "quick" else 160)
+    rfam, r = draw(gen.rank_profiles(n, r_max=kw["r_max"], entries_max=400))
+    pat, plan = draw(dtype_plans(d))
+    return {"which": which, "n": n, "r": r, "rfam": rfam, "pat": pat, "plan": plan, "seed": draw(gen.seeds),
+            "path": [draw(st.integers(0, k - 1)) for k in n], "zfrac": draw(st.sampled_from([0.0, 0.0, 0.2, 0.4])),
+            "float_vals": draw(st.sampled_from(["uniform", "uniform", "dyadic"])),
+            "unsert": draw(st.sampled_from(UNSERTS)), "m": draw(st.integers(1, 40)),
+            "kind": draw(st.sampled_from(SEED_KINDS)), "call_seed": draw(gen.seeds), "unique_spelling": draw(st.booleans())}
+
+
+def build_typed(case):
+    """(tensor with the planned storage types, its float64 copy).  Typed cores hold values their type represents exactly: small
+    integers (int64 / int32), 0/1 (bool), multiples of 1/4 up to 2 (float32: every product / sum the samplers can form of them
+    is exact in single precision as well); float64 cores hold arbitrary doubles, so nothing about the tensor is integral."""
+    n, r, nn = case["n"], case["r"], case["which"] == "sample"
+    rng = np.random.default_rng(case["seed"])
+    Y = []
+    for k, t in enumerate(case["plan"]):
+        sh = (r[k], n[k], r[k + 1])
+        if t in ("int64", "int32"):
+            G = rng.integers(0, 4, size=sh) if nn else rng.integers(-3, 4, size=sh)
+        elif t == "bool":
+            G = rng.integers(0, 2, size=sh)
+        elif t == "float32" or case["float_vals"] == "dyadic":
+            G = (rng.integers(0, 9, size=sh) if nn else rng.integers(-8, 9, size=sh)) / 4.0
+        else:
+            G = rng.uniform(0.0, 4.0, size=sh) if nn else rng.standard_normal(sh)
+        if case["zfrac"] > 0:
+            G = G * (rng.uniform(size=sh) >= case["zfrac"])
+        if nn and not G[0, case["path"][k], 0] > 0:
+            G[0, case["path"][k], 0] = 1                 # the strictly positive path of build_nn: S > 0 by construction
+        Y.append(np.ascontiguousarray(G.astype(t)))
+    Yf = [G.astype(np.float64) for G in Y]
+    return Y, Yf
+
+
+def prop_core_dtypes(case, ctx):
+    which, n, plan, m = case["which"], case["n"], case["plan"], case["m"]
+    d = len(n)
+    Y, Yf = build_typed(case)
+    for G, H in zip(Y, Yf):
+        assert np.array_equal(G, H)                      # the cast is exact: both lists denote the same tensor
+    spec = {"n": n, "r": case["r"]}
+    ctx.label("which:" + which, "dtypes:" + case["pat"], f"d=={d}", "seed:" + case["kind"], "first:" + plan[0],
+              *sorted({"has:" + t for t in plan}))
+    typed_inner = any(t != "float64" for t in plan[:-1])
+    done, single = 0, False
+    with np.errstate(all="ignore"):
+        if which == "sample":
+            ref = nn_reference(Yf)
+            if ref is None:
+                ctx.label("reference_undefined_skipped")
+                return
+            if d >= 3 and plan[0] == plan[1] == "bool":
+                # FINDING (reported, see ASSUMPTIONS): the left partial product of two bool cores is formed by a bool einsum, i.e.
+                # as logical or-of-ands instead of a count; only the structural claims are checked for such tensors
+                ctx.label("bool_bool_prefix_excluded")
+                I = ctx.lib(teneva.sample, Y, m, make_seed(case["kind"], case["call_seed"]))
+                check_index_array(ctx, I, m, n, "sample")
+                return
+            done += forced_sample_run(ctx, Y, n, ref, 0.0)
+            done += forced_sample_run(ctx, Y, n, ref, case["unsert"])
+            use_default = case["unsert"] is None and bool(np.all(ref["M0"] > 0))
+            kw = {} if use_default else {"unsert": 0.0}
+            call = lambda T: ctx.lib(teneva.sample, T, m, make_seed(case["kind"], case["call_seed"]), **kw)
+            name = "sample"
+        else:
+            ref = sq_reference(Yf)
+            if ref is None:
+                ctx.label("zero_tensor_skipped")
+                return
+            single = any(t in ("float32", "bool") for t in plan)
+            if single:
+                # scipy.linalg.rq factorises a float32 core - and a bool core, which SciPy maps to float32 - in single precision:
+                # the same bound with the unit roundoff of float32 (observed on the unmodified library, see ASSUMPTIONS)
+                ctx.label("single_precision_tolerance")
+                eta = ref["eta"] * F32_EPS / EPS
+                ref = dict(ref, eta=eta, tol=4 * eta * (np.sqrt(ref["P"]) + ref["P"]) + 4 * eta * eta)
+            if ref["eta"] > (1e-3 if single else 1e-7):
+                ctx.label("ill_conditioned_skipped")
+                return
+            sq_kw = dict(unique=True, m_fact=1) if case["unique_spelling"] else dict(unique=False)
+            done += forced_square_run(ctx, Y, n, ref, sq_kw, K=Kc(Y) * (F32_EPS / EPS if single else 1.0))
+            call = lambda T: ctx.lib(teneva.sample_square, T, m, False, make_seed(case["kind"], case["call_seed"]))
+            name = "sample_square"
+        # the same seed on the typed tensor and on its float64 copy: the same tensor, hence the same rows (for a single-precision
+        # factorisation under sample_square the conditionals agree only to single precision, so the rows are not compared there)
+        I = call(Y)
+        check_index_array(ctx, I, m, n, name)
+        if not single:
+            If = call(Yf)
+            ctx.check(I.dtype == If.dtype and np.array_equal(I, If), f"{name}: a tensor whose cores are stored in other numeric types "
+                      "gives other rows than its float64 copy (same values, same seed)", dtypes=plan, rows=I[:6], rows_float64=If[:6], m=m)
+    ctx.inner(max(0, done - 1))
+    ctx.nontrivial(nontrivial_tt(spec) and d >= 3 and typed_inner and done > 0)
+
+
 SUBCHECKS = [
     Sub("sample_forced", prop_sample_forced, strategy=sample_forced_cases, quick=200, thorough=2000),
     Sub("square_forced", prop_square_forced, strategy=square_forced_cases, quick=200, thorough=2000),
@@ -1226,4 +1381,5 @@ SUBCHECKS = [
     Sub("sample_tt", prop_sample_tt, strategy=tt_cases, quick=120, thorough=1500),
     Sub("tt_all_n", prop_tt_all_n, enumerate=tt_all_n_cases, exhaustive=True),
     Sub("gof", prop_gof, strategy=gof_cases, quick=12, thorough=60),
+    Sub("core_dtypes", prop_core_dtypes, strategy=dtype_cases, quick=90, thorough=1200),
 ]
